@@ -245,6 +245,16 @@ def needGens (g : Gh) (s : PState) : Bool × PState :=
   else if !s.gup then let q := updateGenerators g s; (!q.1, q.2)
   else (false, s)
 
+/-- the same idiom in `add_recycled_generators`, which calls `minimize()` instead of `update_generators()`:
+`(has_pending_constraints() && !process_pending_constraints()) || (!generators_are_up_to_date() && !minimize())`. -/
+def needGensMin (g : Gh) (s : PState) : Bool × PState :=
+  if s.cpend then
+    let r := processPendingConstraints g s
+    if !r.1 then (true, r.2)
+    else if !r.2.gup then let q := minimize g r.2; (!q.1, q.2) else (false, r.2)
+  else if !s.gup then let q := minimize g s; (!q.1, q.2)
+  else (false, s)
+
 /-- `refine_no_check(c)`; `incons`: `c.is_inconsistent()`; `g.keep`: the inserted row keeps `con_sys`
 sorted; `g.be`: the set becomes empty. -/
 def refineNoCheck (g : Gh) (incons : Bool) (s : PState) : PState :=
